@@ -241,3 +241,5 @@ def replay(ck, rec):
         evaluate_sym(ck, [rec["vector"]["sym"]], h)
     else:
         evaluate(ck, [rec["vector"]["spec"]], h)
+    for d in ck.drifts:
+        print("SPEC-DRIFT property=%s: the code agrees with bash, the expected value of the vector does not" % ck.prop)
